@@ -21,6 +21,7 @@ import (
 func history(c *lib.Ctx, sc *lib.Script, fails *[]lib.OracleFail, rng *lib.RNG, depth, steps int) {
 	g := &sg.Gen{R: rng, Depth: depth, Hit: c.Hit}
 	k := sg.NewCase(c, sc, fails, true)
+	k.Spell = rng.Fork()
 	// The statement quantifies over histories of inserts, updates, deletes and finds on a store – whatever indexes
 	// that store has (C10.find_eq_ref / store_refines_unique are stated for histories with index operations). One
 	// history in eight is therefore the directed family around a partial index whose filter looks at a non-key
